@@ -136,7 +136,7 @@ def run(ctx, driver):
                 "for a derivative >= order; both spellings; single value on a non-first-order equation; reserved names; marker in name), plus unknown option keys; "
                 "distinct = distinct inputs; non-trivial = every corrupted input and every well-formed input of order >= 1")
     cases = []
-    nbase = 10 if quick else 120
+    nbase = ctx.n(10, 120)
     for i in range(nbase):
         order = i % 4
         name = NAMES[i % len(NAMES)]
